@@ -397,7 +397,7 @@ impl Check for C09 {
         "C09"
     }
     fn rule(&self) -> String {
-        "stateful, model-based: proptest generates a history of 2-6 steps over a directory of 2-6 files whose names are drawn from a set with prefix relations (a, a.txt, ab, file, file.txt), names that look like backups (a.~1~, a.~1~.~2~, ~1~, n~), trailing dots, spaces, unicode and non-UTF-8 bytes; the destination is pre-seeded with old versions and with backups numbered small / with gaps / 10^15 / u64::MAX-1 / u64::MAX / 25 digits / 0 / with leading zeros; each step rewrites a generated subset of the sources and runs the real xcp -r with --backup none|auto|numbered, a generated driver and worker count. After every step the destination directory before and after is compared: numbered => each overwritten file's old bytes, mode and mtime are in a new <name>.~N~ with N above every number present for exactly that name; auto => that happens iff such a backup existed; none => no new backup; always => every pre-existing backup is untouched (same inode and bytes); on failure the old content still exists. The kill sub-check additionally kills xcp before/after a generated mutating call inside a numbered step. Non-trivial: a step that overwrote >=1 existing file in auto/numbered mode; distinct by (history, step).".into()
+        "stateful, model-based: proptest generates a history of 2-6 steps over a directory of 2-6 files whose names are drawn from a set with prefix relations (a, a.txt, ab, file, file.txt), names that look like backups (a.~1~, a.~1~.~2~, ~1~, n~), trailing dots, spaces, unicode and non-UTF-8 bytes, names of 251 and 252 bytes (name.~1~ is exactly NAME_MAX / one byte too long, so the backup rename itself fails); the destination is pre-seeded with old versions and with backups numbered small / with gaps / 10^15 / u64::MAX-1 / u64::MAX / 25 digits / 0 / with leading zeros / 1..9+k (numbers of different lengths side by side) / arbitrary pairs below 1200; each step rewrites a generated subset of the sources and runs the real xcp -r with --backup none|auto|numbered, a generated driver and worker count. After every step the destination directory before and after is compared: numbered => each overwritten file's old bytes, mode and mtime are in a new <name>.~N~ with N above every number present for exactly that name; auto => that happens iff such a backup existed; none => no new backup; always => every pre-existing backup is untouched (same inode and bytes); on failure the old content still exists. The kill sub-check additionally kills xcp before/after a generated mutating call inside a numbered step. Non-trivial: a step that overwrote >=1 existing file in auto/numbered mode; distinct by (history, step).".into()
     }
     fn needs(&self) -> Needs {
         Needs { xcp: true, probe: false, fallback: false }
